@@ -76,6 +76,7 @@ class atomic {
  public:
   atomic(T value = T()) : value_(value) {}
   operator T() const { return value_; }
+  T fetch_add(T arg) { T old = value_; value_ += arg; return old; }
 };
 #endif
 
@@ -105,7 +106,7 @@ class SignalHandler : public Interrupter {
  private:
   BasicSolver &solver_;
   std::string message_;
-  static volatile std::sig_atomic_t stop_;
+  static atomic<int> stop_;
 
   static atomic<const char*> signal_message_ptr_;
   static atomic<unsigned> signal_message_size_;
